@@ -21,21 +21,21 @@ CHECKS = {
    text="The file switch at INCLUDE and at the end of an included file neither writes nor inspects parser state (store lint over the functions reachable from processInclude / isScanningFinished), open-context and JSIGHT tests are scoped by the include stack, scanning state is isolated per Scanner, directives of two inclusions are distinct instances, and every memo is keyed by what its value depends on. Catalog equality of split and unsplit documents is behavioural and not claimed.",
    design="DESIGN.md §5 C09",
    note=TB,
-   technique="write-effect lint at the file switch; scope conditions by edge facts; memo key/value dependence analysis; LIFO and key facts of the scanner stack from abstract evaluation of SSA; keyword pre-filters by abstract run on constants; position-needs-file comparison lint with a built-in positive example; agreement of a write count with the length it is compared with; post-scan constructor discipline over the dispatch handlers; every path through a trace recorder appends"),
+   technique="write-effect lint at the file switch; scope conditions by edge facts; memo key/value dependence analysis; LIFO and key facts of the scanner stack from abstract evaluation of SSA; keyword pre-filters by abstract run on constants; position-needs-file comparison lint with a built-in positive example; agreement of a write count with the length it is compared with; post-scan constructor discipline over the dispatch handlers; every path through a trace recorder appends; the scanner treats an opening parenthesis as transparent (a piece may end right after it)"),
  "C15": dict(
    engine="rules/c09.go (C15 part)",
    category="other",
    text="Phase-order necessary condition for order independence: along the straight-line build pipeline, for each cross-block name space the phases that insert names precede the phases that resolve them; rules are attached only to fresh schemas; memo sets are insert-only and memo keys cover their values; keyword pre-filters that end a Description cover every keyword. The tag name space violates it today (recorded finding F20). Equality under permutation is behavioural and not claimed.",
    design="DESIGN.md §5 C15",
    note=TB,
-   technique="insert/resolve effect sets per pipeline phase compared along the phase order for every map field; placement invariants of processContext (abstract evaluation of SSA); end-of-Description predicate folded on the keyword table; stateful dependency calls in the build phases (with a discharge for samples that are never shown); symmetric check-and-register registries; membership tests as resolves; late inserts marked by their constructor and refused by every lookup of the phase"),
+   technique="insert/resolve effect sets per pipeline phase compared along the phase order for every map field; placement invariants of processContext (abstract evaluation of SSA); end-of-Description predicate folded on the keyword table; stateful dependency calls in the build phases (with a discharge for samples that are never shown); symmetric check-and-register registries; membership tests as resolves; late inserts marked by their constructor and refused by every lookup of the phase; no in-place insert through a nested append; discarded iterator results only with callbacks that cannot end the walk"),
  "C17": dict(
    engine="rules/c17.go (+ c01.go recover discipline)",
    category="other",
    text="'Never panics' for the module and everything the export calls: both accessors are a single call of a helper whose deferred recover assigns named results and which contains conversion and encoding; every panic/assertion site below it is listed as covered; no other entry into the converter. Plus: method exhaustiveness of assignOperation, Required=true before a path parameter is appended, response keys are codes or \"default\", post-expansion phases read the expanded directive list. Structural validity of the produced document is produced by the dependency from data and is not claimed.",
    design="DESIGN.md §5 C17",
    note=TB,
-   technique="recover-boundary coverage over the call graph; exhaustiveness by abstract run of the dispatcher per method constant; every-iteration-appends on go/cfg; edge facts evaluated on constants (components iff user types); error-discipline lint over the export; asserted form (T / *T) against the form of literals put behind interfaces; loop-carried flags; dead and shadowing error stores; coverage of counting loops; template expressions of a path against the segment recogniser; panic values are never nil interfaces; typed nil returned as error"),
+   technique="recover-boundary coverage over the call graph; exhaustiveness by abstract run of the dispatcher per method constant; every-iteration-appends on go/cfg; edge facts evaluated on constants (components iff user types); error-discipline lint over the export; asserted form (T / *T) against the form of literals put behind interfaces; loop-carried flags; dead and shadowing error stores; coverage of counting loops; template expressions of a path against the segment recogniser; panic values are never nil interfaces; typed nil returned as error; discarded iterator results only with callbacks that cannot end the walk; path keys derive from the interaction id"),
  "C04": dict(
    engine="rules/c04.go (+ c03.go dropped-error rule, c16.go dependency-call rule)",
    category="other",
@@ -49,7 +49,7 @@ CHECKS = {
    text="For the module's code: interprocedural write effects (fixpoint over SSA, Once closures cut) show that nothing reachable from the five accessors or from MarshalJSON/MarshalText writes into pre-existing catalog/core/directive objects or package state; Once closures keep their state in the object; stateful dependency calls are Once-memoised and pool-backed bytes are copied before being kept. Byte equality inside the dependency is trusted (classification table depAPI).",
    design="DESIGN.md §5 C16",
    note=TB + "Heap freshness is allocation-site based (no points-to analysis in x/tools v0.29.0).",
-   technique="mod/ref (write-effect) analysis on go/ssa with a VTA call graph (shallow/deep writes through parameters, copies share what their pointers lead to; standard-library sorters count as writers); classification of dependency calls inherited along the dependency's call graph; once-only code writes only into its owner; once-closure totality; reads of once-initialised fields behind the Once; untyped deep stores that reach an entry point's receiver; no write through a lent slice (element stores, copy, sort, in-place filter; self-tested matcher)"),
+   technique="mod/ref (write-effect) analysis on go/ssa with a VTA call graph (shallow/deep writes through parameters, copies share what their pointers lead to; standard-library sorters count as writers); classification of dependency calls inherited along the dependency's call graph; once-only code writes only into its owner; once-closure totality; reads of once-initialised fields behind the Once; untyped deep stores that reach an entry point's receiver; no write through a lent slice (element stores, copy, sort, in-place filter; self-tested matcher); write effects follow a pointer read out of a local map or slice to what was put in, not to where the container was made"),
  "C18": dict(
    engine="rules/c18.go + effects.go + c06.go (package state)",
    category="other",
@@ -63,21 +63,21 @@ CHECKS = {
    text="The model round trip is behavioural and not claimed. Decided are the necessary conditions the property names: writer/reader agreement of directive parameter keys per kind, a handler or collector for every directive kind, document-order emission of ordered maps, attachment of Body/Headers to the last response of the interaction derived from the same directive, priority of a method's own Tags, and the context-resolution / macro-expansion structure shared with C11 and C10.",
    design="DESIGN.md §5 C02",
    note=TB + "Attachment through context resolution is covered only as far as the C11/C10 rules go.",
-   technique="cross-table agreement (writers vs readers, kinds vs handlers) extracted from typed syntax; dominance rules; index/guard reasoning by definitions and affine forms with abstract evaluation of the setter as second opinion; normaliser lints; per-resource insert/resolve sets; bounded bisimulation of '(' LF against LF on the scanner automaton; abstract run of the '(' handler once per directive kind; reachability from the lexeme dispatch to the placement function; coverage of counting loops (index offsets followed); every schema made from a body gets all project rules on every path (go/cfg, lifted to helpers and callers); every field of a hand-written json structure is filled; a parameter is copied into the model whatever another parameter says"),
+   technique="cross-table agreement (writers vs readers, kinds vs handlers) extracted from typed syntax; dominance rules; index/guard reasoning by definitions and affine forms with abstract evaluation of the setter as second opinion; normaliser lints; per-resource insert/resolve sets; bounded bisimulation of '(' LF against LF on the scanner automaton; abstract run of the '(' handler once per directive kind; reachability from the lexeme dispatch to the placement function; coverage of counting loops (index offsets followed); every schema made from a body gets all project rules on every path (go/cfg, lifted to helpers and callers); every field of a hand-written json structure is filled; a parameter is copied into the model whatever another parameter says; where the result of an iterator call is discarded, its callback returns nil on every path (a walk that ends silently loses everything behind that element)"),
  "C03": dict(
    engine="rules/c03.go",
    category="other",
    text="Mechanisms behind 'one fault, rejected at the fault': insert-only-after-pure-presence-test for every name-keyed collection and single-valued slot (closures passed to Update tied to the value tested before), uniqueness sets never reset and never short-cut by 'exists, skip' lookups, every fault-class message still raised on a reachable path, handler errors located on the handler's own directive, no dropped error on the build path, annotation used or rejected per kind, JSIGHT-first before anything is added. Which check fires first for each fault x layout is not claimed.",
    design="DESIGN.md §5 C03",
    note=TB + "Errors of a macro body are relocated to the PASTE line by design (named exception).",
-   technique="dominance of guard tests over insertions (go/cfg), lifted to the callers of helpers, with abstract evaluation of the setter (helpers inlined) as second opinion; silent-exit-under-hit edge facts for declaring functions; liveness of error constants over the call graph; receiver-provenance lint; success returns in front of a check of the function's own statement list; dead and shadowing error stores on SSA; coverage of counting loops and loop-carried flags; may-analysis over go/cfg of error variables that can hold a schema-library error (summaries by fixpoint) against constructors given err.Error(); tail-call checks and early returns in loops (a tail call counts only when its callee leaves the catalog/core state alone); a declaration keyed by a name parameter refuses the empty name; insert/resolve sets per phase with constructor marks"),
+   technique="dominance of guard tests over insertions (go/cfg), lifted to the callers of helpers, with abstract evaluation of the setter (helpers inlined) as second opinion; silent-exit-under-hit edge facts for declaring functions; liveness of error constants over the call graph; receiver-provenance lint; success returns in front of a check of the function's own statement list; dead and shadowing error stores on SSA; coverage of counting loops and loop-carried flags; may-analysis over go/cfg of error variables that can hold a schema-library error (summaries by fixpoint) against constructors given err.Error(); tail-call checks and early returns in loops (a tail call counts only when its callee leaves the catalog/core state alone); a declaration keyed by a name parameter refuses the empty name; insert/resolve sets per phase with constructor marks; a setter that tells 'already set' by the empty string is only handed values proved non-empty on every path to the call (edge facts); duplicate tests do not ask 'same coordinates?' (copies of one macro directive share them)"),
  "C05": dict(
    engine="rules/c02.go (C05 part) + rules/c03.go",
    category="other",
    text="Both sides of each cross-reference are written together from one value: tag<->interaction pairing, id/key/protocol/method/path derivation, pure presence test before every insertion, tag source priority, body test on every response iteration, Update closures hand back the entry they were given, only codes inside the response-code range become a response directive, JSIGHT version constant. usedUserTypes closure and exact pathVariables are produced by the dependency from data and are not claimed.",
    design="DESIGN.md §5 C05",
    note=TB,
-   technique="value-identity and pairing rules on typed syntax (lifted to the callers of shared helpers); must-pass-through inside loops; visited-set discipline of the tag list; NewDirectiveType folded on the bounds of the response-code range; arguments of the path parsers are the path verbatim; the id accessors return the named parameter as it stands and the id constructors store exactly that; the path refuses the separator of the id; coverage of counting loops"),
+   technique="value-identity and pairing rules on typed syntax (lifted to the callers of shared helpers); must-pass-through inside loops; visited-set discipline of the tag list; NewDirectiveType folded on the bounds of the response-code range; arguments of the path parsers are the path verbatim; the id accessors return the named parameter as it stands and the id constructors store exactly that; the path refuses the separator of the id; coverage of counting loops; no in-place insert through a nested append over one slice (self-tested recogniser); the methods that file an interaction id into a tag's group append it unconditionally"),
  "C01": dict(
    engine="E1 scanner automaton + rules/c01.go, nilness.go, cgraph.go (AST, go/cfg, SSA, VTA call graph)",
    category="other",
@@ -112,14 +112,14 @@ CHECKS = {
    text="Necessary conditions of layout independence that are visible in the automaton: LF/CR and SP/TAB symmetry per state, comment push/pop/re-feed discipline, blank lines event-free and idempotent, both annotation forms available and '*/' always closing. Catalog equality under rewrites is behavioural and not claimed.",
    design="DESIGN.md §5 C08",
    note=TB + "Description de-indentation and annotation whitespace normalisation are checked only as far as the named rules say.",
-   technique="symmetry and typestate checks on the extracted scanner automaton incl. CR LF versus LF bisimulation to a bounded horizon; interprocedural unquote/normaliser lints; end-of-Description predicate folded for every follower byte; fence symmetry of block comments by shortest paths over the comment states; blank/tab pairing in cut sets and comparisons; '(' transparency by bounded bisimulation; a comment sign where '(' is accepted starts a comment (every configuration); final line break against end of input; lines of blanks in the Description normaliser; notes copied from the schema library pass a line-end normaliser"),
+   technique="symmetry and typestate checks on the extracted scanner automaton incl. CR LF versus LF bisimulation to a bounded horizon; interprocedural unquote/normaliser lints; end-of-Description predicate folded for every follower byte; fence symmetry of block comments by shortest paths over the comment states; blank/tab pairing in cut sets and comparisons; '(' transparency by bounded bisimulation; a comment sign where '(' is accepted starts a comment (every configuration); final line break against end of input; lines of blanks in the Description normaliser; notes copied from the schema library pass a line-end normaliser; the helper every step function calls on the comment sign returns nil on every path"),
  "C10": dict(
    engine="rules/c10.go (AST + go/cfg + go/types)",
    category="other",
    text="Decides the mechanisms PASTE transparency rests on: macro cycles of any length are rejected before expansion (three-colour visited-state discipline verified on the CFG: mark-before-descend, done-on-every-nil-return, on-path test before entering), undefined/unnamed macros are errors, MACRO definitions are removed before expansion, expansion works on reset copies and restores the copy's parent after an explicit context, copies are never identified by coordinates, the ENUM rules of a body are collected on every path before it is expanded, the recursion check visits every sibling, a PASTE after an implicit Description is recognised. Equality with the in-place text for every call site is behavioural and not claimed.",
    design="DESIGN.md §5 C10",
    note=TB + "The rule recognises the visited-state idiom (map from macro name to a named integer state); a different algorithm is reported as undecided/violation rather than accepted.",
-   technique="typestate/pairing and dominance rules over go/cfg; who-may-write rule for the context field; who-may-call rule for coordinate-equality predicates; must-pass-through (rules collected before a body is expanded); abstract run of the expansion walk once per directive kind; who-writes rule for the explicit-context flag; memo keys cover what the value depends on; no coordinate-equality predicate decides anything (package directive included); nothing decided from the root file's text after the scan"),
+   technique="typestate/pairing and dominance rules over go/cfg; who-may-write rule for the context field; who-may-call rule for coordinate-equality predicates; must-pass-through (rules collected before a body is expanded); abstract run of the expansion walk once per directive kind; who-writes rule for the explicit-context flag; memo keys cover what the value depends on; no coordinate-equality predicate decides anything (package directive included); nothing decided from the root file's text after the scan; the context table (where a PASTE may stand, what may stand under it) equals the reference"),
  "C11": dict(
    engine="E2 directive tables + rules/c11.go + E1",
    category="other",
